@@ -34,7 +34,18 @@ Inductive insn : Type :=
 | IPersid (text : bytes)              (* P text LF *)
 | IBinpersid
 | IProto (p : N)
-| IStop.
+| IStop
+(* instructions only a decoder meets (the encoder emits none of them) *)
+| IPut (text : bytes)                 (* p text LF *)
+| IBinput (n : N)                     (* q u8 *)
+| ILongBinput (n : N)                 (* r u32 *)
+| IMemoize                            (* 0x94 *)
+| IGet (text : bytes)                 (* g text LF *)
+| IBinget (n : N)                     (* h u8 *)
+| ILongBinget (n : N)                 (* j u32 *)
+| IDup | IPop | IAppend | IAppends | ISetitem | ISetitems
+| ILong1 (data : bytes)               (* 0x8a u8 two's complement little endian *)
+| IFrame (n : N).                     (* 0x95 u64 *)
 
 Definition u32 (n : N) : bytes := le_encode 4 (n mod 4294967296).
 
@@ -65,6 +76,17 @@ Definition asm (i : insn) : bytes :=
   | IBinpersid => [x51]
   | IProto p => [x80; N2b p]
   | IStop => [x2e]
+  | IPut t => x70 :: t ++ [x0a]
+  | IBinput n => [x71; N2b n]
+  | ILongBinput n => x72 :: le_encode 4 n
+  | IMemoize => [x94]
+  | IGet t => x67 :: t ++ [x0a]
+  | IBinget n => [x68; N2b n]
+  | ILongBinget n => x6a :: le_encode 4 n
+  | IDup => [x32] | IPop => [x30] | IAppend => [x61] | IAppends => [x65]
+  | ISetitem => [x73] | ISetitems => [x75]
+  | ILong1 d => x8a :: N2b (Nlen d) :: d
+  | IFrame n => x95 :: le_encode 8 n
   end.
 
 Definition asm_all (l : list insn) : bytes := flat_map asm l.
@@ -73,12 +95,14 @@ Definition asm_all (l : list insn) : bytes := flat_map asm l.
 Definition iproto (i : insn) : Z :=
   match i with
   | INone | IInt _ | ILong _ | IFloat _ | IString _ | IUnicode _ | IMark | ITuple | IList | IDict
-  | IGlobal _ _ | IReduce | IPersid _ | IStop => 0
+  | IGlobal _ _ | IReduce | IPersid _ | IStop
+  | IPut _ | IGet _ | IDup | IPop | IAppend | ISetitem => 0
   | IBinint1 _ | IBinint2 _ | IBinint _ | IBinfloat _ | IShortBinstring _ | IBinstring _
-  | IBinunicode _ | IEmptyTuple | IEmptyList | IEmptyDict | IBinpersid => 1
-  | INewTrue | INewFalse | ITuple1 | ITuple2 | ITuple3 | IProto _ => 2
+  | IBinunicode _ | IEmptyTuple | IEmptyList | IEmptyDict | IBinpersid
+  | IBinput _ | ILongBinput _ | IBinget _ | ILongBinget _ | IAppends | ISetitems => 1
+  | INewTrue | INewFalse | ITuple1 | ITuple2 | ITuple3 | IProto _ | ILong1 _ => 2
   | IShortBinbytes _ | IBinbytes _ => 3
-  | IShortBinunicode _ | IStackGlobal => 4
+  | IShortBinunicode _ | IStackGlobal | IMemoize | IFrame _ => 4
   | IBytearray8 _ => 5
   end%Z.
 
@@ -97,13 +121,21 @@ Definition sd_step (i : insn) (s : list bool) : option (list bool) :=
   | INone | INewTrue | INewFalse | IInt _ | IBinint1 _ | IBinint2 _ | IBinint _ | ILong _
   | IBinfloat _ | IFloat _ | IString _ | IShortBinstring _ | IBinstring _ | IUnicode _
   | IShortBinunicode _ | IBinunicode _ | IShortBinbytes _ | IBinbytes _ | IBytearray8 _
-  | IEmptyTuple | IEmptyList | IEmptyDict | IGlobal _ _ | IPersid _ => Some (false :: s)
+  | IEmptyTuple | IEmptyList | IEmptyDict | IGlobal _ _ | IPersid _
+  | IGet _ | IBinget _ | ILongBinget _ | ILong1 _ => Some (false :: s)
   | IMark => Some (true :: s)
   | ITuple | IList | IDict => option_map (cons false) (pop_to_mark s)
   | ITuple1 | IBinpersid => match s with false :: t => Some (false :: t) | _ => None end
   | ITuple2 | IStackGlobal | IReduce => match s with false :: false :: t => Some (false :: t) | _ => None end
   | ITuple3 => match s with false :: false :: false :: t => Some (false :: t) | _ => None end
-  | IProto _ => Some s
+  | IProto _ | IFrame _ => Some s
+  | IPut _ | IBinput _ | ILongBinput _ | IMemoize => match s with false :: _ => Some s | _ => None end
+  | IDup => match s with false :: t => Some (false :: false :: t) | _ => None end
+  | IPop => match s with false :: t => Some t | _ => None end
+  | IAppend => match s with false :: false :: t => Some (false :: t) | _ => None end
+  | ISetitem => match s with false :: false :: false :: t => Some (false :: t) | _ => None end
+  | IAppends | ISetitems =>
+      match pop_to_mark s with Some (false :: t) => Some (false :: t) | _ => None end
   | IStop => None                       (* STOP ends the program: handled by sd_run *)
   end.
 
